@@ -153,7 +153,31 @@ func genGoodPreflight(c *cors.Config, r R) reqT {
 	if star {
 		names = append(names, "x-anything", "x-other")
 	}
-	if len(names) > 0 && r.chance(3, 4) {
+	if len(names) > 1 && len(names) <= 12 && r.chance(1, 10) { // (nearly) every allowed name, padded, plus the whole budget of empty elements
+		l := append([]string{}, names...)
+		sort.Strings(l)
+		uniq := l[:0]
+		for i, n := range l {
+			if i == 0 || n != l[i-1] {
+				uniq = append(uniq, n)
+			}
+		}
+		if r.chance(1, 2) && len(uniq) > 2 {
+			k := r.Intn(len(uniq))
+			uniq = append(uniq[:k], uniq[k+1:]...)
+		}
+		padded := make([]string, len(uniq))
+		for i, n := range uniq {
+			padded[i] = " " + n + " "
+		}
+		line := strings.Join(padded, ",") + strings.Repeat(",", 14+r.Intn(3))
+		if r.chance(1, 2) {
+			q.hdrs["Access-Control-Request-Headers"] = []string{line}
+		} else {
+			h := len(padded) / 2
+			q.hdrs["Access-Control-Request-Headers"] = []string{strings.Join(padded[:h], ","), strings.Join(padded[h:], ",") + strings.Repeat(",", 14+r.Intn(3))}
+		}
+	} else if len(names) > 0 && r.chance(3, 4) {
 		sel := map[string]bool{}
 		for i := 0; i < 1+r.Intn(3); i++ {
 			sel[r.pick(names)] = true
